@@ -222,7 +222,16 @@ def to_smt2(hyps, goal, expect_unsat=True):
         s.add(ax)
     for f in fs:
         s.add(f)
-    return s.to_smt2()
+    return _fix_decl_order(s.to_smt2())
+
+
+def _fix_decl_order(text):
+    """z3's printer may emit a datatype before an uninterpreted sort it mentions:
+    move every `(declare-sort ...)` line to the top."""
+    lines = text.split("\n")
+    sorts = [l for l in lines if l.startswith("(declare-sort ")]
+    rest = [l for l in lines if not l.startswith("(declare-sort ")]
+    return "\n".join(sorts + rest)
 
 
 def _run(cmd, timeout):
